@@ -619,3 +619,457 @@ Lemma mp_enc_length t v : mp_wf_ty t -> mp_wf t v -> (1 <= length (mp_enc t v))%
 Proof.
   intros Ht Hv. destruct (mp_enc_head t Ht v Hv) as (a & tl & E & _). rewrite E. cbn. lia.
 Qed.
+
+(* ---------- Skip passes over every encoded value ---------- *)
+
+Lemma mp_flat_map_length_In {A} (f : A -> list Z) l x : In x l -> (length (f x) <= length (flat_map f l))%nat.
+Proof.
+  induction l as [|y l IH]; intros Hin; [destruct Hin|]. cbn [flat_map]. rewrite app_length.
+  destruct Hin as [->|Hin]; [lia|]. specialize (IH Hin). lia.
+Qed.
+
+Lemma mp_flat_map_length_ge {A} (f : A -> list Z) l c :
+  (forall x, In x l -> (c <= length (f x))%nat) -> (c * length l <= length (flat_map f l))%nat.
+Proof.
+  induction l as [|y l IH]; intros H; [cbn; lia|]. cbn [flat_map length]. rewrite app_length.
+  pose proof (H y (or_introl eq_refl)). assert (c * length l <= length (flat_map f l))%nat by (apply IH; intros; apply H; right; assumption).
+  lia.
+Qed.
+
+Lemma mp_skip_many_flat {A} sk (f : A -> list Z) l rest :
+  (forall x, In x l -> forall r, sk (f x ++ r) = Some r) ->
+  mp_skip_many sk (length l) (flat_map f l ++ rest) = Some rest.
+Proof.
+  induction l as [|y l IH]; intros H; [reflexivity|].
+  cbn [flat_map length mp_skip_many]. rewrite <- app_assoc, (H y (or_introl eq_refl)).
+  apply IH. intros x Hx. apply H. right. exact Hx.
+Qed.
+
+Lemma mp_skip_many_pairs {A} sk (fa fb : A -> list Z) l rest :
+  (forall x, In x l -> forall r, sk (fa x ++ r) = Some r) ->
+  (forall x, In x l -> forall r, sk (fb x ++ r) = Some r) ->
+  mp_skip_many sk (2 * length l) (flat_map (fun x => fa x ++ fb x) l ++ rest) = Some rest.
+Proof.
+  induction l as [|y l IH]; intros Ha Hb; [reflexivity|].
+  cbn [flat_map length]. replace (2 * S (length l))%nat with (S (S (2 * length l))) by lia.
+  cbn [mp_skip_many]. rewrite <- !app_assoc, (Ha y (or_introl eq_refl)), (Hb y (or_introl eq_refl)).
+  apply IH; intros x Hx; [apply Ha|apply Hb]; right; exact Hx.
+Qed.
+
+Lemma mp_enc_fields_length_ge fs vs : mp_wf_ty_fields fs -> mp_wf_fields fs vs ->
+  (2 * length fs <= length (mp_enc_fields fs vs))%nat.
+Proof.
+  revert vs. induction fs as [|[k ft] fs IH]; intros [|x vs] Ht Hv; cbn in Hv; try contradiction; [cbn; lia|].
+  destruct Ht as [Ht1 Ht2]. destruct Hv as [Hv1 Hv2]. cbn [mp_enc_fields length]. rewrite !app_length.
+  pose proof (mp_enc_length ft x Ht1 Hv1). destruct (mp_head_str k) as (a & tl & E & _). rewrite E.
+  specialize (IH vs Ht2 Hv2). cbn [length]. lia.
+Qed.
+
+Lemma mp_skip1_enc t : mp_wf_ty t -> forall v, mp_wf t v -> forall fuel rest,
+  (length (mp_enc t v) <= fuel)%nat -> mp_skip1 fuel (mp_enc t v ++ rest) = Some rest.
+Proof.
+  induction t using mp_ty_ind'; intros Ht v Hv fuel rest Hf;
+    (destruct fuel as [|f]; [pose proof (mp_enc_length _ v Ht Hv); lia|]);
+    destruct v; cbn [mp_wf] in Hv; try contradiction.
+  - apply mp_skip1_bool.
+  - cbn [mp_enc]. apply mp_skip1_int. cbn [mp_wf_ty] in Ht.
+    destruct Ht as [-> | [-> | [-> | ->]]]; mp_pow; change (2 ^ 63) with 9223372036854775808; lia.
+  - cbn [mp_enc]. apply mp_skip1_uint. cbn [mp_wf_ty] in Ht.
+    destruct Ht as [-> | [-> | [-> | ->]]]; mp_pow; lia.
+  - apply mp_skip1_f64.
+  - apply mp_skip1_str. exact Hv.
+  - apply mp_skip1_bin. exact Hv.
+  - (* array *)
+    cbn [mp_enc mp_wf_ty] in *. destruct Hv as [Hl Hall]. rewrite <- app_assoc.
+    rewrite app_length in Hf.
+    assert (Hge : (1 * length l <= length (flat_map (mp_enc t) l))%nat).
+    { apply mp_flat_map_length_ge. intros x Hx. apply mp_enc_length; [exact Ht|]. rewrite Forall_forall in Hall. auto. }
+    rewrite mp_skip1_arrhdr by (rewrite ?app_length; lia). rewrite Nat2Z.id.
+    destruct (mp_head_arrhdr (Z.of_nat (length l)) [] ltac:(lia)) as (a & tl & E & _).
+    rewrite app_nil_r in E. rewrite E in Hf. cbn [length] in Hf.
+    apply mp_skip_many_flat. intros x Hx r. apply IHt; [exact Ht| |].
+    + rewrite Forall_forall in Hall. auto.
+    + pose proof (mp_flat_map_length_In (mp_enc t) l x Hx). lia.
+  - (* map *)
+    cbn [mp_enc mp_wf_ty] in *. destruct Hv as (Hl & _ & Hall). rewrite <- app_assoc.
+    rewrite app_length in Hf. rewrite Forall_forall in Hall.
+    set (g := fun kv : list Z * mp_val => mp_wr_str (fst kv) ++ mp_enc t (snd kv)) in *.
+    assert (Hge : (2 * length l <= length (flat_map g l))%nat).
+    { apply mp_flat_map_length_ge. intros x Hx. unfold g. rewrite app_length.
+      pose proof (mp_enc_length t (snd x) Ht (proj2 (Hall x Hx))).
+      destruct (mp_head_str (fst x)) as (a & tl & E & _). rewrite E. cbn [length]. lia. }
+    rewrite mp_skip1_maphdr by (rewrite ?app_length; lia).
+    replace (Z.to_nat (2 * Z.of_nat (length l))) with (2 * length l)%nat by lia.
+    destruct (mp_head_maphdr (Z.of_nat (length l)) [] ltac:(lia)) as (a & tl & E & _).
+    rewrite app_nil_r in E. rewrite E in Hf. cbn [length] in Hf.
+    unfold g. apply (mp_skip_many_pairs (mp_skip1 f) (fun kv => mp_wr_str (fst kv)) (fun kv => mp_enc t (snd kv))).
+    + intros x Hx r. pose proof (mp_flat_map_length_In g l x Hx) as Hlen. change (g x) with (mp_wr_str (fst x) ++ mp_enc t (snd x)) in Hlen. rewrite app_length in Hlen.
+      destruct f as [|f']; [destruct (mp_head_str (fst x)) as (a' & tl' & E' & _); rewrite E' in Hlen; cbn in Hlen; lia|].
+      apply mp_skip1_str. apply (Hall x Hx).
+    + intros x Hx r. pose proof (mp_flat_map_length_In g l x Hx) as Hlen. change (g x) with (mp_wr_str (fst x) ++ mp_enc t (snd x)) in Hlen. rewrite app_length in Hlen.
+      apply IHt; [exact Ht|apply (Hall x Hx)|lia].
+  - (* pointer *)
+    destruct Ht as [Ht _]. destruct o as [x|]; cbn [mp_enc] in *.
+    + apply IHt; assumption.
+    + apply mp_skip1_nil.
+  - (* struct *)
+    rewrite mp_enc_struct_eq in *. change (mp_wf_fields fs l) in Hv. rewrite mp_wf_ty_struct_eq in Ht.
+    destruct Ht as (Hn & _ & Hk & Htf). rewrite <- app_assoc. rewrite app_length in Hf.
+    pose proof (mp_enc_fields_length_ge fs l Htf Hv) as Hge.
+    rewrite mp_skip1_maphdr by (rewrite ?app_length; lia).
+    replace (Z.to_nat (2 * Z.of_nat (length fs))) with (2 * length fs)%nat by lia.
+    destruct (mp_head_maphdr (Z.of_nat (length fs)) [] ltac:(lia)) as (a & tl & E & _).
+    rewrite app_nil_r in E. rewrite E in Hf. cbn [length] in Hf.
+    assert (Hlen : (length (mp_enc_fields fs l) <= f)%nat) by lia. clear Hf E Hge Hn.
+    revert l Hv Hlen. induction fs as [|[k ft] fs IH]; intros [|x vs] Hv Hlen; cbn in Hv; try contradiction; [reflexivity|].
+    destruct Hv as [Hv1 Hv2]. destruct Htf as [Ht1 Ht2]. inversion Hk as [|? ? Hk1 Hk2]; subst.
+    inversion H as [|? ? Hh Htl]; subst. cbn [snd fst] in *.
+    cbn [mp_enc_fields length] in *. replace (2 * S (length fs))%nat with (S (S (2 * length fs))) by lia.
+    rewrite !app_length in Hlen. cbn [mp_skip_many]. rewrite <- !app_assoc.
+    destruct f as [|f']; [destruct (mp_head_str k) as (a' & tl' & E' & _); rewrite E' in Hlen; cbn in Hlen; lia|].
+    rewrite mp_skip1_str by exact Hk1.
+    rewrite (Hh Ht1 x Hv1) by lia.
+    apply IH; auto. lia.
+  - (* versions *)
+    rewrite mp_enc_ver_eq in *. pose proof (fun k a => mp_wf_ty_alts_In alts k a Ht) as Hin.
+    clear Ht. revert Hv Hf. induction alts as [|[k at_] tl IH]; [intros []|].
+    cbn [mp_enc_alt]. inversion H as [|? ? Hhd Htl]; subst. cbn [snd] in Hhd. destruct (mp_key_eqb k tag).
+    + intros [Hw _] Hf. destruct (Hin k at_ ltac:(left; reflexivity)) as (Hta & _).
+      apply Hhd; assumption.
+    + apply IH; [exact Htl|]. intros k' a' Hi. apply (Hin k' a'). right. exact Hi.
+Qed.
+
+Lemma mp_skip_enc t v rest : mp_wf_ty t -> mp_wf t v -> mp_skip (mp_enc t v ++ rest) = Some rest.
+Proof. intros Ht Hv. unfold mp_skip. apply mp_skip1_enc; auto. rewrite app_length. lia. Qed.
+
+(* ---------- decoding inverts encoding ---------- *)
+
+Lemma mp_dec_n_flat (d : mp_decoder) (f : mp_val -> list Z) l rest :
+  (forall x, In x l -> forall r, d (f x ++ r) = Some (x, r)) ->
+  mp_dec_n d (length l) (flat_map f l ++ rest) = Some (l, rest).
+Proof.
+  induction l as [|y l IH]; intros H; [reflexivity|].
+  cbn [flat_map length mp_dec_n]. rewrite <- app_assoc, (H y (or_introl eq_refl)).
+  rewrite IH by (intros x Hx; apply H; right; exact Hx). reflexivity.
+Qed.
+
+Lemma mp_ins_last k v acc : (forall kv, In kv acc -> mp_cmp (fst kv) k = Lt) ->
+  mp_ins k v acc = acc ++ [(k, v)].
+Proof.
+  induction acc as [|[k' v'] acc IH]; intros H; [reflexivity|].
+  cbn [mp_ins app]. pose proof (H (k', v') (or_introl eq_refl)) as Hk. cbn [fst] in Hk.
+  rewrite mp_cmp_antisym, Hk. cbn [CompOpp]. f_equal. apply IH. intros kv Hin. apply H. right. exact Hin.
+Qed.
+
+Lemma mp_sorted_app_lt a : forall b, mp_sorted (a ++ b) ->
+  forall x y, In x a -> In y b -> mp_cmp (fst x) (fst y) = Lt.
+Proof.
+  induction a as [|h a IH]; intros b Hs x y Hx Hy; [destruct Hx|].
+  cbn [app mp_sorted] in Hs. destruct Hs as [Hh Ht]. destruct Hx as [->|Hx].
+  - apply Hh. apply in_or_app. right. exact Hy.
+  - eapply IH; eauto.
+Qed.
+
+Lemma mp_dec_map_flat (d : mp_decoder) (f : mp_val -> list Z) l : forall acc rest,
+  mp_sorted (acc ++ l) ->
+  (forall kv, In kv l -> Z.of_nat (length (fst kv)) < 2 ^ 32 /\ forall r, d (f (snd kv) ++ r) = Some (snd kv, r)) ->
+  mp_dec_map d (length l) acc (flat_map (fun kv => mp_wr_str (fst kv) ++ f (snd kv)) l ++ rest) = Some (acc ++ l, rest).
+Proof.
+  induction l as [|[k v] l IH]; intros acc rest Hs H; [rewrite app_nil_r; reflexivity|].
+  cbn [flat_map length mp_dec_map fst snd]. rewrite <- !app_assoc.
+  destruct (H (k, v) (or_introl eq_refl)) as [Hk Hd]. cbn [fst snd] in Hk, Hd.
+  rewrite mp_rd_str_wr by exact Hk. rewrite Hd.
+  rewrite mp_ins_last.
+  - replace (acc ++ (k, v) :: l) with ((acc ++ [(k, v)]) ++ l) by (rewrite <- app_assoc; reflexivity).
+    apply IH; [rewrite <- app_assoc; exact Hs|]. intros kv Hin. apply H. right. exact Hin.
+  - intros kv Hin. apply (mp_sorted_app_lt acc ((k, v) :: l) Hs kv (k, v) Hin). left. reflexivity.
+Qed.
+
+(* ----- struct fields ----- *)
+
+Lemma mp_find_decs k fs1 : forall i, ~ In k (map fst fs1) -> forall ft fs2,
+  mp_find k (mp_decs (fs1 ++ (k, ft) :: fs2)) i = Some ((i + length fs1)%nat, mp_dec ft).
+Proof.
+  induction fs1 as [|[k1 t1] fs1 IH]; intros i Hn ft fs2.
+  - cbn. rewrite mp_key_eqb_refl. f_equal. f_equal. lia.
+  - cbn [app mp_decs map fst snd mp_find]. cbn [map fst] in Hn.
+    rewrite mp_key_eqb_neq by (intros ->; apply Hn; left; reflexivity).
+    fold (mp_decs (fs1 ++ (k, ft) :: fs2)). rewrite IH by (intros Hi; apply Hn; right; exact Hi).
+    f_equal. f_equal. cbn [length]. lia.
+Qed.
+
+Lemma mp_set_app vs1 v z zs : mp_set (length vs1) v (vs1 ++ z :: zs) = vs1 ++ v :: zs.
+Proof. induction vs1 as [|x vs1 IH]; cbn; [reflexivity|]. rewrite IH. reflexivity. Qed.
+
+Lemma mp_dec_fields_enc fs2 : forall fs1 vs1 vs2 rest,
+  NoDup (map fst (fs1 ++ fs2)) -> length vs1 = length fs1 ->
+  Forall (fun kt => Z.of_nat (length (fst kt)) < 2 ^ 32) fs2 ->
+  mp_wf_fields fs2 vs2 ->
+  Forall (fun kt => forall x r, mp_wf (snd kt) x -> mp_dec (snd kt) (mp_enc (snd kt) x ++ r) = Some (x, r)) fs2 ->
+  mp_dec_fields (mp_decs (fs1 ++ fs2)) (length fs2) (vs1 ++ mp_zeros fs2) (mp_enc_fields fs2 vs2 ++ rest)
+  = Some (vs1 ++ vs2, rest).
+Proof.
+  induction fs2 as [|[k ft] fs2 IH]; intros fs1 vs1 vs2 rest Hnd Hlen Hk Hv Hd.
+  - destruct vs2; cbn in Hv; [|contradiction]. cbn. reflexivity.
+  - destruct vs2 as [|x vs2]; cbn in Hv; [contradiction|]. destruct Hv as [Hv1 Hv2].
+    inversion Hk as [|? ? Hk1 Hk2]; subst. inversion Hd as [|? ? Hd1 Hd2]; subst. cbn [fst snd] in *.
+    cbn [mp_enc_fields length mp_dec_fields]. rewrite <- !app_assoc.
+    rewrite mp_rd_key_wr by exact Hk1.
+    rewrite (mp_find_decs k fs1 0).
+    2:{ rewrite map_app in Hnd. cbn [map fst] in Hnd. apply NoDup_remove_2 in Hnd.
+        intros Hi. apply Hnd. apply in_or_app. left. exact Hi. }
+    rewrite (Hd1 x _ Hv1). cbn [Nat.add]. rewrite <- Hlen.
+    cbn [mp_zeros map snd]. rewrite mp_set_app. fold (mp_zeros fs2).
+    replace (fs1 ++ (k, ft) :: fs2) with ((fs1 ++ [(k, ft)]) ++ fs2) by (rewrite <- app_assoc; reflexivity).
+    replace (vs1 ++ x :: mp_zeros fs2) with ((vs1 ++ [x]) ++ mp_zeros fs2) by (rewrite <- app_assoc; reflexivity).
+    replace (vs1 ++ x :: vs2) with ((vs1 ++ [x]) ++ vs2) by (rewrite <- app_assoc; reflexivity).
+    apply IH; auto.
+    + rewrite <- app_assoc. exact Hnd.
+    + rewrite !app_length. cbn. lia.
+Qed.
+
+(* ----- the version peek on an encoded struct ----- *)
+
+Definition mp_dstr : mp_decoder :=
+  fun b => match mp_rd_str b with Some (s, r) => Some (VStr s, r) | None => None end.
+
+Lemma mp_peek_fields fs : forall vs cur rest,
+  Forall (fun kt => Z.of_nat (length (fst kt)) < 2 ^ 32) fs ->
+  mp_wf_ty_fields fs -> mp_wf_fields fs vs ->
+  (forall ft, In (mp_version_key, ft) fs -> ft = TStr) ->
+  mp_dec_fields [(mp_version_key, mp_dstr)] (length fs) [VStr cur] (mp_enc_fields fs vs ++ rest)
+  = Some ([VStr (mp_version_fold cur fs vs)], rest).
+Proof.
+  induction fs as [|[k ft] fs IH]; intros vs cur rest Hk Ht Hv Hver.
+  - destruct vs; cbn in Hv; [|contradiction]. reflexivity.
+  - destruct vs as [|x vs]; cbn in Hv; [contradiction|]. destruct Hv as [Hv1 Hv2]. destruct Ht as [Ht1 Ht2].
+    inversion Hk as [|? ? Hk1 Hk2]; subst. cbn [fst] in Hk1.
+    cbn [mp_enc_fields length mp_dec_fields mp_version_fold]. rewrite <- !app_assoc.
+    rewrite mp_rd_key_wr by exact Hk1. cbn [mp_find].
+    assert (Hsym : mp_key_eqb mp_version_key k = mp_key_eqb k mp_version_key).
+    { destruct (mp_key_eqb k mp_version_key) eqn:E.
+      - apply mp_key_eqb_eq in E. subst. apply mp_key_eqb_refl.
+      - destruct (mp_key_eqb mp_version_key k) eqn:E2; [|reflexivity]. apply mp_key_eqb_eq in E2. subst.
+        rewrite mp_key_eqb_refl in E. discriminate. }
+    rewrite Hsym. destruct (mp_key_eqb k mp_version_key) eqn:E.
+    + apply mp_key_eqb_eq in E. subst k.
+      assert (ft = TStr) by (apply Hver; left; reflexivity). subst ft.
+      destruct x; cbn [mp_wf] in Hv1; try contradiction. cbn [mp_enc]. unfold mp_dstr at 1.
+      rewrite mp_rd_str_wr by exact Hv1. cbn [mp_set].
+      apply IH; auto. intros ft Hin. apply Hver. right. exact Hin.
+    + rewrite mp_skip_enc by assumption.
+      apply IH; auto. intros ft' Hin. apply Hver. right. exact Hin.
+Qed.
+
+Lemma mp_peek_struct fs vs rest :
+  mp_wf_ty (TStruct fs) -> mp_wf (TStruct fs) (VStruct vs) ->
+  (forall ft, In (mp_version_key, ft) fs -> ft = TStr) ->
+  mp_peek_version (mp_enc (TStruct fs) (VStruct vs) ++ rest)
+  = Some (match mp_version_of fs vs with [] => mp_v1 | s => s end).
+Proof.
+  intros Ht Hv Hver. rewrite mp_wf_ty_struct_eq in Ht. destruct Ht as (Hn & _ & Hk & Htf).
+  rewrite mp_wf_struct_eq in Hv. rewrite mp_enc_struct_eq, <- app_assoc.
+  unfold mp_peek_version, mp_dec_struct. rewrite mp_rd_maphdr_wr by lia.
+  pose proof (mp_enc_fields_length_ge fs vs Htf Hv) as Hge.
+  destruct (Z.ltb_spec (Z.of_nat (length (mp_enc_fields fs vs ++ rest))) (Z.of_nat (length fs))) as [Hl|_];
+    [rewrite app_length in Hl; lia|].
+  rewrite Nat2Z.id. fold mp_dstr. rewrite mp_peek_fields by assumption.
+  unfold mp_version_of. destruct (mp_version_fold [] fs vs); reflexivity.
+Qed.
+
+(* ----- the main theorem ----- *)
+
+Theorem mp_dec_enc t : mp_wf_ty t -> forall v rest, mp_wf t v ->
+  mp_dec t (mp_enc t v ++ rest) = Some (v, rest).
+Proof.
+  induction t using mp_ty_ind'; intros Ht v rest Hv;
+    destruct v; cbn [mp_wf] in Hv; try contradiction.
+  - cbn [mp_dec mp_enc]. rewrite mp_rd_bool_wr. reflexivity.
+  - cbn [mp_dec mp_enc]. rewrite mp_rd_int_wr by assumption. reflexivity.
+  - cbn [mp_dec mp_enc]. rewrite mp_rd_uint_wr by assumption. reflexivity.
+  - cbn [mp_dec mp_enc]. rewrite mp_rd_f64_wr by assumption. reflexivity.
+  - cbn [mp_dec mp_enc]. rewrite mp_rd_str_wr by assumption. reflexivity.
+  - cbn [mp_dec mp_enc]. rewrite mp_rd_bin_wr by assumption. reflexivity.
+  - (* array *)
+    cbn [mp_dec mp_enc mp_wf_ty] in *. destruct Hv as [Hl Hall]. rewrite Forall_forall in Hall.
+    rewrite <- app_assoc, mp_rd_arrhdr_wr by lia.
+    assert (Hge : (1 * length l <= length (flat_map (mp_enc t) l))%nat).
+    { apply mp_flat_map_length_ge. intros x Hx. apply mp_enc_length; auto. }
+    destruct (Z.ltb_spec (Z.of_nat (length (flat_map (mp_enc t) l ++ rest))) (Z.of_nat (length l))) as [Hlt|_];
+      [rewrite app_length in Hlt; lia|].
+    rewrite Nat2Z.id, mp_dec_n_flat; [reflexivity|]. intros x Hx r. apply IHt; auto.
+  - (* map *)
+    cbn [mp_dec mp_enc mp_wf_ty] in *. destruct Hv as (Hl & Hs & Hall). rewrite Forall_forall in Hall.
+    rewrite <- app_assoc, mp_rd_maphdr_wr by lia.
+    set (g := fun kv : list Z * mp_val => mp_wr_str (fst kv) ++ mp_enc t (snd kv)).
+    assert (Hge : (1 * length l <= length (flat_map g l))%nat).
+    { apply mp_flat_map_length_ge. intros x Hx. unfold g. rewrite app_length.
+      pose proof (mp_enc_length t (snd x) Ht (proj2 (Hall x Hx))). lia. }
+    destruct (Z.ltb_spec (Z.of_nat (length (flat_map g l ++ rest))) (Z.of_nat (length l))) as [Hlt|_];
+      [rewrite app_length in Hlt; lia|].
+    rewrite Nat2Z.id. unfold g. rewrite (mp_dec_map_flat (mp_dec t) (mp_enc t) l [] rest); [reflexivity|exact Hs|].
+    intros kv Hin. split; [apply (Hall kv Hin)|]. intros r. apply IHt; [exact Ht|apply (Hall kv Hin)].
+  - (* pointer *)
+    destruct Ht as [Ht Hp]. destruct o as [x|]; cbn [mp_dec mp_enc].
+    + destruct (mp_enc_head t Ht x Hv) as (a & tl & E & Hn). specialize (Hn Hp).
+      rewrite E. cbn [app]. destruct (Z.eqb_spec a 192) as [|_]; [contradiction|].
+      change (a :: tl ++ rest) with ((a :: tl) ++ rest). rewrite <- E. rewrite IHt by assumption. reflexivity.
+    + reflexivity.
+  - (* struct *)
+    rewrite mp_dec_struct_eq, mp_enc_struct_eq. change (mp_wf_fields fs l) in Hv.
+    rewrite mp_wf_ty_struct_eq in Ht. destruct Ht as (Hn & Hnd & Hk & Htf).
+    rewrite <- app_assoc. unfold mp_dec_struct. rewrite mp_rd_maphdr_wr by lia.
+    pose proof (mp_enc_fields_length_ge fs l Htf Hv) as Hge.
+    destruct (Z.ltb_spec (Z.of_nat (length (mp_enc_fields fs l ++ rest))) (Z.of_nat (length fs))) as [Hlt|_];
+      [rewrite app_length in Hlt; lia|].
+    rewrite Nat2Z.id.
+    assert (Hd : mp_dec_fields (mp_decs fs) (length fs) (mp_zeros fs) (mp_enc_fields fs l ++ rest) = Some (l, rest)).
+    { apply (mp_dec_fields_enc fs [] [] l rest); auto.
+      clear - H Htf. induction fs as [|[k ft] fs IH]; [constructor|].
+      destruct Htf as [Ht1 Ht2]. inversion H as [|? ? Hh Htl]; subst. constructor; [|apply IH; auto].
+      cbn [snd] in *. intros x r Hx. apply Hh; auto. }
+    rewrite Hd. reflexivity.
+  - (* versions *)
+    rewrite mp_dec_ver_eq, mp_enc_ver_eq.
+    pose proof (fun k a => mp_wf_ty_alts_In alts k a Ht) as Hin. clear Ht.
+    (* the bytes are those of the first alternative whose tag matches *)
+    assert (Hfind : exists at_ fs vs, v = VStruct vs /\ at_ = TStruct fs /\
+              mp_enc_alt alts tag v = mp_enc at_ v /\ mp_wf_ty at_ /\ mp_wf at_ v /\
+              (forall ft, In (mp_version_key, ft) fs -> ft = TStr) /\
+              (match mp_version_of fs vs with [] => mp_v1 | s => s end) = tag /\
+              (forall b, mp_dec_alt alts tag b = match mp_dec at_ b with Some (x, r) => Some (VVer tag x, r) | None => None end) /\
+              (forall x r, mp_wf at_ x -> mp_dec at_ (mp_enc at_ x ++ r) = Some (x, r))).
+    { revert Hv. induction alts as [|[k at_] tl IH]; [intros []|].
+      inversion H as [|? ? Hhd Htl]; subst. cbn [snd] in Hhd. cbn [mp_enc_alt mp_dec_alt].
+      destruct (mp_key_eqb k tag) eqn:E.
+      - intros [Hw Hver]. destruct (Hin k at_ ltac:(left; reflexivity)) as (Hta & fs & -> & Hvk).
+        destruct v; try contradiction. exists (TStruct fs), fs, l.
+        split; [reflexivity|]. split; [reflexivity|]. split; [reflexivity|]. split; [exact Hta|].
+        split; [exact Hw|]. split; [exact Hvk|]. split; [exact Hver|]. split; [intros b; reflexivity|].
+        intros x r Hx. apply Hhd; auto.
+      - intros Hv. destruct IH as (a & fs & vs & H1 & H2 & H3 & H4 & H5 & H6 & H7 & H8 & H9); auto.
+        { intros k' a' Hi. apply (Hin k' a'). right. exact Hi. }
+        exists a, fs, vs. split; [exact H1|]. split; [exact H2|]. split; [exact H3|]. split; [exact H4|].
+        split; [exact H5|]. split; [exact H6|]. split; [exact H7|]. split; [exact H8|exact H9]. }
+    destruct Hfind as (at_ & fs & vs & -> & -> & He & Hta & Hw & Hvk & Htag & Hda & Hrt).
+    rewrite He. rewrite mp_peek_struct by assumption. rewrite Htag, Hda, Hrt by exact Hw. reflexivity.
+Qed.
+
+(* re-encoding what was decoded gives the same bytes *)
+Corollary mp_enc_dec_enc t v : mp_wf_ty t -> mp_wf t v ->
+  exists v', mp_dec t (mp_enc t v) = Some (v', []) /\ mp_enc t v' = mp_enc t v.
+Proof.
+  intros Ht Hv. exists v. split; [|reflexivity].
+  rewrite <- (app_nil_r (mp_enc t v)) at 1. apply mp_dec_enc; assumption.
+Qed.
+
+(* decoding is injective on encodings: different values have different bytes *)
+Corollary mp_enc_inj t v1 v2 : mp_wf_ty t -> mp_wf t v1 -> mp_wf t v2 ->
+  mp_enc t v1 = mp_enc t v2 -> v1 = v2.
+Proof.
+  intros Ht H1 H2 E. pose proof (mp_dec_enc t Ht v1 [] H1) as D1. pose proof (mp_dec_enc t Ht v2 [] H2) as D2.
+  rewrite E in D1. rewrite D1 in D2. inversion D2. reflexivity.
+Qed.
+
+(* ---------- a decision procedure for well-formed schemas ---------- *)
+
+Fixpoint mp_nodupb (l : list (list Z)) : bool :=
+  match l with
+  | [] => true
+  | k :: tl => negb (existsb (mp_key_eqb k) tl) && mp_nodupb tl
+  end.
+
+Definition mp_bitsb (b : Z) : bool := (b =? 8) || (b =? 16) || (b =? 32) || (b =? 64).
+
+Definition mp_version_str (kt : list Z * mp_ty) : bool :=
+  if mp_key_eqb (fst kt) mp_version_key then match snd kt with TStr => true | _ => false end else true.
+
+Fixpoint mp_wf_tyb (t : mp_ty) : bool :=
+  match t with
+  | TInt b | TUint b => mp_bitsb b
+  | TArr e | TMap e => mp_wf_tyb e
+  | TPtr e => mp_wf_tyb e && negb (mp_is_ptr e)
+  | TStruct fs =>
+      (Z.of_nat (length fs) <? 2 ^ 32) && mp_nodupb (map fst fs) &&
+      forallb (fun kt => Z.of_nat (length (fst kt)) <? 2 ^ 32) fs &&
+      (fix all (l : list (list Z * mp_ty)) : bool :=
+         match l with (_, ft) :: tl => mp_wf_tyb ft && all tl | [] => true end) fs
+  | TVer alts =>
+      (fix all (l : list (list Z * mp_ty)) : bool :=
+         match l with
+         | (_, at_) :: tl =>
+             mp_wf_tyb at_ && match at_ with TStruct fs => forallb mp_version_str fs | _ => false end && all tl
+         | [] => true
+         end) alts
+  | _ => true
+  end.
+
+Lemma mp_nodupb_sound l : mp_nodupb l = true -> NoDup l.
+Proof.
+  induction l as [|k l IH]; intros H; [constructor|]. cbn in H. apply andb_prop in H. destruct H as [H1 H2].
+  constructor; [|apply IH; exact H2]. intros Hin. apply negb_true_iff in H1.
+  assert (existsb (mp_key_eqb k) l = true); [|congruence].
+  apply existsb_exists. exists k. split; [exact Hin|apply mp_key_eqb_refl].
+Qed.
+
+Lemma mp_wf_tyb_sound t : mp_wf_tyb t = true -> mp_wf_ty t.
+Proof.
+  induction t using mp_ty_ind'; intros Hb; cbn [mp_wf_tyb mp_wf_ty] in *; auto.
+  - unfold mp_bitsb, mp_int_bits in *. lia.
+  - unfold mp_bitsb, mp_int_bits in *. lia.
+  - apply andb_prop in Hb. destruct Hb as [H1 H2]. split; [auto|]. apply negb_true_iff in H2. exact H2.
+  - apply andb_prop in Hb. destruct Hb as [Hb H4]. apply andb_prop in Hb. destruct Hb as [Hb H3].
+    apply andb_prop in Hb. destruct Hb as [H1 H2].
+    split; [lia|]. split; [apply mp_nodupb_sound; exact H2|]. split.
+    + apply Forall_forall. intros kt Hin. rewrite forallb_forall in H3. specialize (H3 kt Hin). lia.
+    + clear H1 H2 H3. induction fs as [|[k ft] fs IH]; [exact I|].
+      apply andb_prop in H4. destruct H4 as [Ha Hb]. inversion H as [|? ? Hh Htl]; subst. split; [apply Hh; exact Ha|apply IH; auto].
+  - induction alts as [|[k at_] tl IH]; [exact I|].
+    apply andb_prop in Hb. destruct Hb as [Hb H3]. apply andb_prop in Hb. destruct Hb as [H1 H2].
+    inversion H as [|? ? Hh Htl]; subst. split; [|apply IH; auto]. split; [apply Hh; exact H1|].
+    destruct at_; try discriminate. exists fs. split; [reflexivity|]. intros ft Hin.
+    rewrite forallb_forall in H2. specialize (H2 _ Hin). unfold mp_version_str in H2. cbn [fst snd] in H2.
+    rewrite mp_key_eqb_refl in H2. destruct ft; try discriminate. reflexivity.
+Qed.
+
+(* ---------- migration keeps the common fields ---------- *)
+
+Fixpoint mp_first (k : list Z) (fs : list (list Z * mp_ty)) : option mp_ty :=
+  match fs with
+  | (k', ft) :: tl => if mp_key_eqb k' k then Some ft else mp_first k tl
+  | [] => None
+  end.
+
+Lemma mp_lookup_map k (g : list Z * mp_ty -> mp_val) fs :
+  mp_lookup_field k fs (map g fs) =
+  (fix go (l : list (list Z * mp_ty)) : option (mp_ty * mp_val) :=
+     match l with
+     | (k', ft) :: tl => if mp_key_eqb k' k then Some (ft, g (k', ft)) else go tl
+     | [] => None
+     end) fs.
+Proof.
+  induction fs as [|[k' ft] fs IH]; [reflexivity|]. cbn [map mp_lookup_field].
+  destruct (mp_key_eqb k' k); [reflexivity|exact IH].
+Qed.
+
+Lemma mp_migrate_keeps_common tag fs_old vs_old fs_new k ft x ftn :
+  k <> mp_version_key -> mp_lookup_field k fs_old vs_old = Some (ft, x) ->
+  mp_first k fs_new = Some ftn -> mp_ty_eqb ft ftn = true ->
+  mp_lookup_field k fs_new (mp_migrate tag fs_old vs_old fs_new) = Some (ftn, x).
+Proof.
+  intros Hk Hold Hnew Heq. unfold mp_migrate. rewrite mp_lookup_map.
+  induction fs_new as [|[k' t'] tl IH]; [discriminate|]. cbn [mp_first] in Hnew.
+  destruct (mp_key_eqb k' k) eqn:E; [|apply IH; exact Hnew].
+  apply mp_key_eqb_eq in E. subst k'. inversion Hnew. subst t'. cbn [fst snd].
+  rewrite mp_key_eqb_neq by exact Hk. rewrite Hold, Heq. reflexivity.
+Qed.
+
+Lemma mp_migrate_sets_version tag fs_old vs_old fs_new ftn :
+  mp_first mp_version_key fs_new = Some ftn ->
+  mp_lookup_field mp_version_key fs_new (mp_migrate tag fs_old vs_old fs_new) = Some (ftn, VStr tag).
+Proof.
+  intros Hnew. unfold mp_migrate. rewrite mp_lookup_map.
+  induction fs_new as [|[k' t'] tl IH]; [discriminate|]. cbn [mp_first] in Hnew.
+  destruct (mp_key_eqb k' mp_version_key) eqn:E; [|apply IH; exact Hnew].
+  inversion Hnew. subst t'. cbn [fst snd]. rewrite E. reflexivity.
+Qed.
